@@ -18,7 +18,7 @@ def groups(rnd, n, crrs=None):
             if r < 0.25:
                 am.add(rnd.choice([1, 2, 10, 1000, 10 ** 9, 10 ** 10, 10 ** 18]))
             elif r < 0.5:
-                am.add(rnd.choice([S - 1, S, S // 2, S // 3, R - 1, R // 2, R // 1000, S // 10 ** 6 + 1, R - R // 10 ** 9]))
+                am.add(rnd.choice([S - 1, S, S // 2, S // 3, R - 1, R, R + 1, R // 2, R // 1000, S // 10 ** 6 + 1, R - R // 10 ** 9]))
             elif r < 0.8:
                 am.add(rnd.randint(1, max(S, R)))
             else:
